@@ -1,6 +1,6 @@
 use std::fs;
 use std::io::{self, Read};
-use std::path::Path;
+use std::path::{Path, PathBuf};
 
 use super::{
     central_header_to_zip_file_inner, read_zipfile_from_stream, spec, ZipError, ZipFile,
@@ -64,7 +64,8 @@ impl<R: Read> ZipStreamReader<R> {
     /// Extraction is not atomic; If an error is encountered, some of the files
     /// may be left on disk.
     pub fn extract<P: AsRef<Path>>(self, directory: P) -> ZipResult<()> {
-        struct Extractor<'a>(&'a Path);
+        // .1: the recorded Unix modes (depth, path, mode), applied after the visit
+        struct Extractor<'a>(&'a Path, Vec<(usize, PathBuf, u32)>);
         impl ZipStreamVisitor for Extractor<'_> {
             fn visit_file(&mut self, file: &mut ZipFile<'_>) -> ZipResult<()> {
                 let filepath = file
@@ -99,9 +100,8 @@ impl<R: Read> ZipStreamReader<R> {
 
                     let outpath = self.0.join(filepath);
 
-                    use std::os::unix::fs::PermissionsExt;
                     if let Some(mode) = metadata.unix_mode() {
-                        fs::set_permissions(outpath, fs::Permissions::from_mode(mode))?;
+                        self.1.push((super::path_depth(filepath), outpath, mode));
                     }
                 }
 
@@ -109,7 +109,11 @@ impl<R: Read> ZipStreamReader<R> {
             }
         }
 
-        self.visit(&mut Extractor(directory.as_ref()))
+        let mut extractor = Extractor(directory.as_ref(), Vec::new());
+        self.visit(&mut extractor)?;
+        #[cfg(unix)]
+        super::apply_unix_modes(extractor.1)?;
+        Ok(())
     }
 }
 
